@@ -94,7 +94,10 @@ type WCfg struct {
 	StallSender bool
 	ExecDelay   bool
 	Stalls      bool
+	Pokers      int // tasks that call IsActive / Context / Trigger concurrently
 }
+
+type pokeEvent struct{}
 
 // WHist is what the writers family records.
 type WHist struct {
@@ -331,6 +334,23 @@ func (e *Env) RunWriters(cfg WCfg) *WHist {
 		for s := 0; s < cfg.Scribblers; s++ {
 			s := s
 			e.Go(fmt.Sprintf("scribbler%d", s), func() { scribble(e, s) })
+		}
+		for pk := 0; pk < cfg.Pokers; pk++ {
+			e.Go(fmt.Sprintf("poker%d", pk), func() {
+				for i := 0; i < 3; i++ {
+					e.Step()
+					switch e.P(4) {
+					case 0:
+						_ = rig.Ch.IsActive()
+					case 1:
+						_ = rig.Ch.Context().Err()
+					case 2:
+						rig.Ch.Trigger(pokeEvent{})
+					case 3:
+						_ = rig.Ch.Write(fillPayload(250, 3))
+					}
+				}
+			})
 		}
 		if cfg.StallSender {
 			e.Go("releaser", func() {
